@@ -51,8 +51,8 @@ def norm(n, env, depth=0):
         inner = norm(n["e"], env, depth + 1)
         if inner and inner[0] in ("list", "zip"):
             return inner
-        if inner and inner[0] == "okval":
-            return inner[1]  # `helper(..)?` where the helper ends in Ok(v): the value is v, inner failures keep their own `try`
+        if inner and inner[0] == "resultval":
+            return push_try(inner[1])  # `helper(..)?`: the `?` applies to each tail of the helper; Ok(v) tails are just v
         return ("try", inner)
     if k == "AddrOf":
         return norm(n["e"], env, depth + 1)
@@ -144,6 +144,16 @@ def norm(n, env, depth=0):
     if k == "Call":
         f = H.strip(n["f"])
         args = [norm(a, env, depth + 1) for a in n["args"] if not is_plumbing(a)]
+        if H.kind(f) == "Path" and f["res"].get("local") is not None:
+            # calling a function value: a closure parameter of an inlined helper (`op(a, b)`) is beta-reduced
+            fv = norm(f, env, depth + 1)
+            if fv[0] == "closure":
+                return subst(fv[1], {("cp", i): a for i, a in enumerate(args)})
+            if fv[0] == "path" and fv[1]:
+                nm_ = H.last(fv[1])
+                if "<impl " in fv[1] and args:
+                    return ("call", nm_) + tuple(args)  # `f64::powf` used as a function value: same as the method call
+                return ("fn", nm_) + tuple(args)
         if H.kind(f) == "Path" and f["res"].get("dk") == "Ctor":
             d = f["res"]["def"]
             if d.endswith("result::Result::Ok") and len(args) == 1:
@@ -161,12 +171,9 @@ def norm(n, env, depth=0):
                 bn = H.pat_binds(p_)
                 if len(bn) == 1:
                     e2.roles[bn[0]] = norm(a_, env, depth + 1)
-            body = norm(hf["body"], e2, depth + 10)
-            fe = H.final_expr(hf["body"])
-            ff = H.strip(fe.get("f")) if H.kind(fe) == "Call" else None
-            if ff is not None and H.kind(ff) == "Path" and ff["res"].get("dk") == "Ctor" and (ff["res"].get("def") or "").endswith("result::Result::Ok"):
-                return ("okval", body)
-            return body
+            if "core::result::Result<" in (hf.get("output") or ""):
+                return ("resultval", result_tail(hf["body"], e2, depth + 10))
+            return norm(hf["body"], e2, depth + 10)
         return ("fn", nm) + tuple(args)
     if k == "MethodCall":
         nm = n["name"]
@@ -189,6 +196,46 @@ def norm(n, env, depth=0):
     if k == "LetExpr":
         return ("let", pat_sig(n["pat"]), norm(n["init"], env, depth + 1))
     return ("?", k)
+
+
+def result_tail(n, env, depth=0):
+    """normal form of a Result-valued body, keeping `Ok(v)` tails visible as ("ok", v) so that a `?` at the call site can be distributed"""
+    if depth > 60 or not isinstance(n, dict):
+        return ("?", "depth")
+    k = H.kind(n)
+    if k == "Block":
+        e2 = env.child()
+        for s in n["stmts"]:
+            if s["k"] == "Let" and H.kind(s["pat"]) == "Bind" and s.get("init") is not None:
+                ce = e2.child()
+                e2.roles.pop(s["pat"]["name"], None)
+                e2.inline[s["pat"]["name"]] = (s["init"], ce)
+            elif s["k"] == "Let" and H.kind(s["pat"]) == "Tuple" and s.get("init") is not None:
+                bind_tuple(s["pat"], s["init"], e2)
+        if n.get("expr") is not None:
+            return result_tail(n["expr"], e2, depth + 1)
+        return ("unit",)
+    if k == "If" and n.get("else") is not None:
+        return ("if", norm(n["cond"], env, depth + 1), result_tail(n["then"], env, depth + 1), result_tail(n["else"], env, depth + 1))
+    if k == "Match":
+        return ("match", norm(n["scrut"], env, depth + 1), tuple((pat_sig(a["pat"]), result_tail(a["body"], env, depth + 1)) for a in n["arms"]))
+    if k == "Call":
+        f = H.strip(n["f"])
+        if H.kind(f) == "Path" and f["res"].get("dk") == "Ctor" and (f["res"].get("def") or "").endswith("result::Result::Ok") and len(n["args"]) == 1:
+            return ("ok", norm(n["args"][0], env, depth + 1))
+    return norm(n, env, depth)
+
+
+def push_try(t):
+    if not isinstance(t, tuple) or not t:
+        return ("try", t)
+    if t[0] == "ok":
+        return t[1]
+    if t[0] == "if":
+        return ("if", t[1], push_try(t[2]), push_try(t[3]))
+    if t[0] == "match":
+        return ("match", t[1], tuple((p, push_try(b)) for p, b in t[2]))
+    return ("try", t)
 
 
 def pat_sig(p):
@@ -318,3 +365,22 @@ def contains_call(t, name):
             return True
         return any(contains_call(x, name) for x in t)
     return False
+
+
+NO_INLINE = {"check_ordering", "get_function_def", "get_pairs", "evaluate_ast", "evaluate_binary_op_ast", "evaluate_do_block_expr", "evaluate_pairs",
+             "pairs_to_expr", "pairs_to_expr_inner", "pairs_to_expr_with_comments", "is_built_in_function", "validate_portable_value",
+             "collect_free_variables", "flatten_spread_value", "parse_record_entry"}
+
+
+def default_inline(core):
+    """policy for INLINE: look through private free functions of blots-core that are not part of the rules' own vocabulary"""
+    def pol(d):
+        if not (d or "").startswith("blots_core::") or H.last(d) in NO_INLINE:
+            return None
+        hf = core.hir.get(d)
+        if hf is None or hf.get("kind") != "Fn" or hf.get("body") is None:
+            return None
+        if d.startswith("blots_core::ast_to_source::") or d.startswith("blots_core::formatter::") or d.startswith("blots_core::units::"):
+            return None
+        return hf
+    return pol
